@@ -218,6 +218,10 @@ def run_property(prop: str, tier: str = "quick", replay: Optional[str] = None, t
             results.append(r)
         if isinstance(x, dict) and x.get("obligations"):
             x["violations"] = []  # reported through the obligations
+    if os.environ.get("PYVC_DUMP_RESULTS"):
+        # per-obligation verdicts for a check that is consumed by another one (specs/reader_link.py)
+        write_json(os.environ["PYVC_DUMP_RESULTS"], [{"name": r.name, "ok": bool(r.discharged), "status": r.status, "function": r.func,
+                                                     "kind": r.kind} for r in results if r.kind != "vacuity"])
     real = [r for r in results if r.kind != "vacuity"]
     vac = [r for r in results if r.kind == "vacuity"]
     vac_bad = [r for r in vac if r.status == "unsat"]
